@@ -3,3 +3,5 @@ import Ymq.Props.C19Wied
 #print axioms Ymq.C19Wied.krylov_recurrence
 #print axioms Ymq.C19Wied.detp4_spec_full_complexity
 #print axioms Ymq.C19Wied.detp4_false_zero_iff_deficient
+#print axioms Ymq.C19Wied.detz_of_detp_partial
+#print axioms Ymq.C19Wied.detz_early_termination_witness
